@@ -218,7 +218,7 @@ class Listener(HubListener):
 
     def receive(self, via, msg, prio):
         w = self.world
-        w.log.append(("enter", self.lid, msg.tag, type(msg).__name__, via, w.open_delays, prio))
+        w.log.append(("enter", self.lid, w.serial_of(msg), type(msg).__name__, via, w.open_delays, prio))
         w.handler_calls += 1
         key = type(msg).__name__
         script = self.scripts.get(key)
@@ -232,7 +232,7 @@ class Listener(HubListener):
                     w.interpret(script[1], in_handler=True)
                 finally:
                     w.active_handlers -= 1
-        w.log.append(("exit", self.lid, msg.tag))
+        w.log.append(("exit", self.lid, w.serial_of(msg)))
 
 
 class World:
@@ -250,10 +250,23 @@ class World:
         self.reentrant_runs = 0
         self.max_delay_depth = 0
         self.online_violation = None
+        self.serial = {}
+        self.keep = []
         for lid, (subs, scripts) in enumerate(config):
             self.listeners[lid] = Listener(self, lid, scripts)
             for (cls, handler, filt, prio) in subs:
                 self.hub.subscribe(lid, CLS[cls], handler, filt, prio if self.kind == "real" or prio is not None else 10)
+
+    def serial_of(self, msg):
+        """History id of a message *object* (messages may carry equal payloads, so identity decides)."""
+        return self.serial[id(msg)]
+
+    def new_message(self, cls, tag=None):
+        n = next(self.uid)
+        msg = CLS[cls](None, tag=n if tag is None else tag)
+        self.serial[id(msg)] = n
+        self.keep.append(msg)     # keep alive: ids must not be reused within one execution
+        return msg
 
     def plain_handler(self, lid):
         world = self
@@ -290,9 +303,20 @@ class World:
         op = tok[0]
         hub = self.hub
         if op == "b":
-            msg = CLS[tok[1]](None, tag=next(self.uid))
-            self.log.append(("ctl", "broadcast", tok[1], msg.tag, self.open_delays))
+            msg = self.new_message(tok[1])
+            self.log.append(("ctl", "broadcast", tok[1], self.serial_of(msg), self.open_delays))
             hub.broadcast(msg)
+        elif op == "bd":
+            # a distinct message object whose payload (class, sender, tag) equals that of earlier messages
+            msg = self.new_message(tok[1], tag=tok[2])
+            self.log.append(("ctl", "broadcast_equal_payload", tok[1], self.serial_of(msg), self.open_delays))
+            hub.broadcast(msg)
+        elif op == "rb":
+            # the very same message object broadcast again: it must be delivered again
+            if self.keep:
+                msg = self.keep[-1]
+                self.log.append(("ctl", "rebroadcast", type(msg).__name__, self.serial_of(msg), self.open_delays))
+                hub.broadcast(msg)
         elif op == "delay":
             cm = hub.delay_callbacks()
             cm.__enter__()
@@ -521,6 +545,8 @@ def run_program(ctx, config_id, config, ties, prog):
         ctx.count("programs_with_listener_created_mid_history")
     if len(prog) > 100:
         ctx.count("programs_with_long_queue")
+    if sum(1 for t in prog if t[0] in ("bd", "rb")) >= 2:
+        ctx.count("programs_with_equal_payload_or_rebroadcast_messages")
     if sig is not None:
         ctx.violation(sig, {"config": config_id, "program": prog, "real_log": real.log[:80], "model_log": model.log[:80]})
     elif ctx.rng.random() < 0.0005:
@@ -549,7 +575,13 @@ def random_prog(rng, n, nl, handler=False, ties=False):
     for _ in range(n):
         r = rng.random()
         if r < 0.4:
-            prog.append(("b", rng.choice(["A", "B", "C", "B2"])))
+            r2 = rng.random()
+            if ties or r2 < 0.8:
+                prog.append(("b", rng.choice(["A", "B", "C", "B2"])))
+            elif r2 < 0.95:
+                prog.append(("bd", rng.choice(["A", "B", "C"]), rng.choice([0, 0, 1, 2])))
+            else:
+                prog.append(("rb",))
         elif r < 0.55:
             prog.append(("delay",))
         elif r < 0.7:
@@ -603,7 +635,7 @@ def floors(counters, tier):
     if counters.get("handler_invocations_real", 0) < 1000:
         out.append("fewer than 1000 handler invocations observed on the real hub")
     for k in ("programs_with_nested_delay", "programs_with_reentrant_handler", "programs_with_exception_exit",
-              "programs_with_gc_dropped_listener"):
+              "programs_with_gc_dropped_listener", "programs_with_equal_payload_or_rebroadcast_messages"):
         if counters.get(k, 0) < 20:
             out.append("fewer than 20 %s" % k)
     return out
